@@ -124,6 +124,10 @@ func c13One(k *c13Case) *core.Viol {
 	for i := range withMacro {
 		exp, e1 := c13Expand(st, withMacro[i])
 		if e1 != "" {
+			if sp := parseText([]byte(substituted[i]), false); strings.HasPrefix(e1, "parse:") && !sp.clean() {
+				// the rendered template is not valid source by itself (e.g. `1.k`): neither program is a case
+				return &core.Viol{Class: "unsupported", Detail: "template does not parse: " + withMacro[i], Case: cs}
+			}
 			return mk("expand-failed", fmt.Sprintf("%q: %s", withMacro[i], e1))
 		}
 		sub := parseText([]byte(substituted[i]), false)
